@@ -288,6 +288,20 @@ def run(chk):
                 coll(tname, progs, binds, [], "?type", "type name vs variable=%s program=%s" % (vb_, pb))
                 coll("type(%s)" % tname, progs, binds, [], "OK " + vtype("type"),
                      "type name vs variable=%s program=%s" % (vb_, pb))
+    # a stored program is evaluated under the bindings in force where it is referenced: outside a macro the caller's, inside
+    # a macro body the caller's plus the loop variable - also when the same program was already evaluated a moment before
+    pr = [("dbl", "v * 2"), ("cur", "has(zz) ? zz : -1"), ("two", "dbl + dbl")]
+    bv = [("v", vi(100))]
+    for src, exp in [("dbl > 0 ? [1, 2, 3].map(v, dbl) : []", "OK " + vlist([vi(2), vi(4), vi(6)])),
+                     ("[1, 2, 3].reduce(acc, v, acc + dbl, dbl)", "OK " + vi(212)),
+                     ("dbl > 0 && [7, 8].map(v, dbl) == [14, 16]", "OK b1"),
+                     ("[1, 2].map(v, dbl) + [dbl]", "OK " + vlist([vi(2), vi(4), vi(200)])),
+                     ("two == 400 ? [1].map(v, two) : []", "OK " + vlist([vi(4)])),
+                     ("dbl == 200 ? [1].map(v, two) + [two] : []", "OK " + vlist([vi(4), vi(400)])),
+                     ("cur == -1 && [7, 8].map(zz, cur) == [7, 8]", "OK b1"),
+                     ("cur == -1 ? [7].map(zz, cur) + [cur] : []", "OK " + vlist([vi(7), vi(-1)])),
+                     ("[3].map(v, dbl) == [6] && dbl == 200 && [4].map(v, dbl) == [8]", "OK b1")]:
+        coll(src, pr, bv, [], exp, "program reference under the loop variable after a reference outside")
     for vb_ in (False, True):
         for pb in (False, True):
             binds = [("v", vi(5))] if vb_ else []
